@@ -232,6 +232,15 @@ func (c15) Eval(c *Chooser, env *Env) *Outcome {
 	if mode == 5 && cfg == "" {
 		mode = 0
 	}
+	// a file outside every repository, in a directory that is an ancestor of the repository, named first
+	looseFirst := mode == 0 && c.Weighted("world.loosefirst", 1, 6)
+	if looseFirst {
+		lp := path.Dir(root) + "/loose.yml"
+		loose := []byte("on: push\njobs:\n  l:\n    runs-on: bogus-label\n    steps:\n      - run: echo\n")
+		disk.Put(lp, loose)
+		diskU.Put(lp, loose)
+		lintFiles = append([]string{lp}, lintFiles...)
+	}
 	// files of a second repository (its own config) in the same invocation
 	sibArg := sib != "" && mode == 0 && c.Bool("world.sibarg")
 	if sibArg {
@@ -350,6 +359,13 @@ func (c15) Eval(c *Chooser, env *Env) *Outcome {
 			if strings.Contains(d.Msg, "is unknown") {
 				drop = true
 			}
+			if !drop {
+				expected = append(expected, d)
+			}
+			continue
+		}
+		if !strings.HasPrefix(d.Abs, root+"/") {
+			// a file outside every repository: no configuration applies to it
 			if !drop {
 				expected = append(expected, d)
 			}
